@@ -20,6 +20,10 @@ pub const P_MUNIIC: u8 = 3;
 pub const P_REWRITE: u8 = 4;
 pub const P_FILETRANSFER_KEEP: u8 = 5;
 pub const P_FILETRANSFER_DROP: u8 = 6;
+/// dropping file transfer plugins restricted to an application (SYS), an application and a context (SYS/FILE), a context (FILE)
+pub const P_FT_DROP_APID: u8 = 7;
+pub const P_FT_DROP_BOTH: u8 = 8;
+pub const P_FT_DROP_CTID: u8 = 9;
 
 /// message shapes that hit the plugins (selected by `special`), everything else is plain traffic
 #[derive(Clone, Debug, Serialize, Deserialize)]
@@ -84,11 +88,16 @@ pub fn build(m: &PMsg, index: u32) -> DltMessage {
                 _ => v,
             };
             let mut p = id.to_le_bytes().to_vec();
-            let extra = match (v / 5) % 4 {
+            // 7..=10: the data after the id is 1..=4 bytes short of the 11 byte frame of ID_805834673
+            let extra = match (v / 5) % 8 {
                 0 => 0,
                 1 => 11,
                 2 => 3,
-                _ => 40,
+                3 => 40,
+                4 => 7,
+                5 => 8,
+                6 => 9,
+                _ => 10,
             };
             for i in 0..extra {
                 p.push((v as u8).wrapping_add(i as u8));
@@ -216,7 +225,13 @@ pub fn build(m: &PMsg, index: u32) -> DltMessage {
                 }
             }
             d.payload = p;
-            d.extended_header = ext(0x01 | (4 << 4), noar, b"SYS\0", b"FILE");
+            // mostly the usual SYS/FILE; sometimes the other contexts of that application or the same context of another one
+            let (apid, ctid): (&[u8; 4], &[u8; 4]) = match (v / 1024) % 5 {
+                0 | 1 | 2 => (b"SYS\0", b"FILE"),
+                3 => (b"SYS\0", b"JOUR"),
+                _ => (b"APP1", b"FILE"),
+            };
+            d.extended_header = ext(0x01 | (4 << 4), noar, apid, ctid);
         }
         7 => {
             // segmented SOME/IP network trace: NWST (announcement), NWCH (chunk), NWEN (end); few segment ids so that sequences link up
@@ -270,6 +285,9 @@ pub fn plugin_cfg(p: u8) -> String {
         P_MUNIIC => r#"{"name":"Muniic","enabled":true,"jsonDir":"/repo/tests/muniic"}"#.to_string(),
         P_REWRITE => crate::plug::rewrite_cfg(),
         P_FILETRANSFER_DROP => crate::plug::file_transfer_cfg(false),
+        P_FT_DROP_APID => r#"{"name":"FileTransfer","enabled":true,"allowSave":false,"keepFLDA":false,"apid":"SYS"}"#.to_string(),
+        P_FT_DROP_BOTH => r#"{"name":"FileTransfer","enabled":true,"allowSave":false,"keepFLDA":false,"apid":"SYS","ctid":"FILE"}"#.to_string(),
+        P_FT_DROP_CTID => r#"{"name":"FileTransfer","enabled":true,"allowSave":false,"keepFLDA":false,"ctid":"FILE"}"#.to_string(),
         _ => crate::plug::file_transfer_cfg(true),
     }
 }
@@ -333,8 +351,19 @@ fn run_plugins(msgs: &[PMsg], plugins: &[u8], sched: &SchedCfg, ctx: &mut Ctx) -
         viol!("plugin-stage-error", "stage returned an error although the consumer stayed");
     }
     // only file-transfer data packages may be dropped, and only when the plugin is configured so
-    let drop_flda = plugins.contains(&P_FILETRANSFER_DROP);
-    let droppable = |m: &DltMessage| drop_flda && m.is_verbose() && m.noar() == 5 && m.mstp() == adlt::dlt::DltMessageType::Log(adlt::dlt::DltMessageLogType::Info) && adlt::plugins::file_transfer::FileTransferPlugin::is_type(m, "FLDA");
+    // (a restricted plugin only for the messages of its application/context)
+    let sys = adlt::dlt::DltChar4::from_buf(b"SYS\0");
+    let file = adlt::dlt::DltChar4::from_buf(b"FILE");
+    let drop_flda = |m: &DltMessage| {
+        plugins.iter().any(|p| match *p {
+            P_FILETRANSFER_DROP => true,
+            P_FT_DROP_APID => m.apid() == Some(&sys),
+            P_FT_DROP_BOTH => m.apid() == Some(&sys) && m.ctid() == Some(&file),
+            P_FT_DROP_CTID => m.ctid() == Some(&file),
+            _ => false,
+        })
+    };
+    let droppable = |m: &DltMessage| drop_flda(m) && m.is_verbose() && m.noar() == 5 && m.mstp() == adlt::dlt::DltMessageType::Log(adlt::dlt::DltMessageLogType::Info) && adlt::plugins::file_transfer::FileTransferPlugin::is_type(m, "FLDA");
     let n_in = input.len();
     let (input, msgs): (Vec<DltMessage>, Vec<PMsg>) = input.into_iter().zip(msgs.iter().cloned()).filter(|(m, _)| !droppable(m)).unzip();
     let msgs = &msgs[..];
@@ -545,6 +574,11 @@ impl Check for C19 {
                 .collect();
             // all subsets and orders
             let mut all = vec![P_NONVERBOSE, P_SOMEIP, P_CAN, P_MUNIIC, P_REWRITE, P_FILETRANSFER_KEEP, P_FILETRANSFER_DROP];
+            // at most one of the restricted file transfer plugins (instead of the unrestricted dropping one)
+            if k.chance(1, 3) {
+                all.retain(|p| *p != P_FILETRANSFER_DROP);
+                all.push(P_FT_DROP_APID + k.below(3) as u8);
+            }
             k.shuffle(&mut all);
             let n = k.urange(1, all.len());
             all.truncate(n);
